@@ -1318,6 +1318,31 @@ def run(ctx) -> None:
                construct="parse_component: the element of %s found by name accumulates its keys" % lst)
     ctx.floor("C19.R16-a-shared-element-accumulates-its-keys", n16, 1, "look-ups of a list element by name in parse_component")
 
+    # R3 (obligation): a list value is written in the order and multiplicity it has (seed C19-14) --------------------------------
+    # the readers split the text and keep the order they find: a writer that sorts the TEXT of the elements ('stage10' < 'stage2') or
+    # removes duplicates hands back another list than it was given
+    n_join = 0
+    for wq in ("Dosini._dump_output", "Dosini._dump_status"):
+        wf = m.func(wq)
+        for c in source.calls_in(wf, include_nested=True):
+            if not (last_attr(c) == "join" and isinstance(c.func.value, ast.Constant) and c.args):
+                continue
+            n_join += 1
+            val = match.resolve_local(wf, c.args[0]) if isinstance(c.args[0], ast.Name) else c.args[0]
+            reorder = [x for x in ast.walk(val) if isinstance(x, (ast.Set, ast.SetComp)) or (
+                isinstance(x, ast.Call) and (call_name(x) in ("sorted", "set", "frozenset", "reversed") or last_attr(x) in ("sort", "reverse")))]
+            # an in-place sort of the local before it is joined
+            if isinstance(c.args[0], ast.Name):
+                reorder += [x for x in source.calls_in(wf, include_nested=True) if last_attr(x) in ("sort", "reverse")
+                            and isinstance(x.func.value, ast.Name) and x.func.value.id == c.args[0].id]
+            ctx.ob("C19.R3-sections", c, not reorder,
+                   "%s joins the list value as it is (%s)" % (wq.split(".")[-1], short(val, 50)) if not reorder else
+                   "%s reorders or de-duplicates a list value before it writes it (%s): the reader keeps the order of the text, so stages "
+                   "[2, 10, 11] are written 'stage10,stage11,stage2' and read back [10, 11, 2] (and [3, 3] as [3])"
+                   % (wq.split(".")[-1], short(reorder[0], 60)),
+                   construct="%s: list value joined in the order given" % wq.split(".")[-1])
+    ctx.require(n_join >= 2, "anchor missing: the joins of list values in _dump_output / _dump_status (found %d)" % n_join)
+
     # R3 (obligation): list values of the status section are split the way they were joined -----------------------------
     dst_ = m.func("Dosini._dump_status")
     pst_ = m.func("Dosini.parse_status")
